@@ -1,6 +1,11 @@
-import PeptVerif.Spec.Mass
+import PeptVerif.Props.C02
 /-!
 C05 — fragment ion series obey the chemistry of peptide backbone cleavage.  Property theorems only.
+
+All relations are exact identities over ℚ between values of the executable model of `mass(ion_type=…)` (tied to
+`fragment()` by correspondence: every fragment's mass is re-computed by the model from the fragment's own sequence).
+`h⁺ := m(H) − mₑ` in the mode's hydrogen mass is the carrier of the first charge that the ion tables encode
+(`particles_ok` of C02: |PROTON_MASS − h⁺| ≤ 2·10⁻⁸ in monoisotopic mode); every further charge adds `PROTON_MASS`.
 -/
 namespace Pept.C05
 open Pept Pept.Chem Pept.Mass Pept.Spec
@@ -21,5 +26,83 @@ theorem adjust_tables_ok :
       match fragmentAdjMass mono p.1, fragmentIonAdjMass mono p.1, ionOffset lib mono p.1 with
       | some a, some b, some v => decide (a + b = v)
       | _, _, _ => false)) = true := by decide +kernel
+
+local notation "tR" => Pept.C02.residue_table_ok
+local notation "tA" => Pept.C02.adjust_tables_ok
+
+/-- **a = b − CO, c = b + NH3** for the same peptide, charge, isotope offset and loss -/
+theorem forward_series_offsets (env : Env) (a : Annotation) (mono : Bool) (hd : fragDomain env a mono)
+    (z iso : Int) (loss : Rat) :
+    ∃ mb, mass env a (ionQuery (k "b") z mono iso loss) = .ok mb ∧
+      mass env a (ionQuery (k "a") z mono iso loss) = .ok (mb - lib.compMass mono fCO) ∧
+      mass env a (ionQuery (k "c") z mono iso loss) = .ok (mb + lib.compMass mono fNH3) := by
+  obtain ⟨oa, ob, oc, _, _, _, _⟩ := offsets mono
+  refine ⟨_, fragMass tR tA env a mono hd (k "b") (by decide) (by decide) 0 ob z iso loss, ?_, ?_⟩
+  · rw [fragMass tR tA env a mono hd (k "a") (by decide) (by decide) _ oa z iso loss]
+    apply congrArg Except.ok; ring
+  · rw [fragMass tR tA env a mono hd (k "c") (by decide) (by decide) _ oc z iso loss]
+    apply congrArg Except.ok; ring
+
+/-- **x = y + CO − H2, z = y − NH3** -/
+theorem backward_series_offsets (env : Env) (a : Annotation) (mono : Bool) (hd : fragDomain env a mono)
+    (z iso : Int) (loss : Rat) :
+    ∃ my, mass env a (ionQuery (k "y") z mono iso loss) = .ok my ∧
+      mass env a (ionQuery (k "x") z mono iso loss) = .ok (my + lib.compMass mono fCO - lib.compMass mono fH2) ∧
+      mass env a (ionQuery (k "z") z mono iso loss) = .ok (my - lib.compMass mono fNH3) := by
+  obtain ⟨_, _, _, ox, oy, oz, _⟩ := offsets mono
+  refine ⟨_, fragMass tR tA env a mono hd (k "y") (by decide) (by decide) _ oy z iso loss, ?_, ?_⟩
+  · rw [fragMass tR tA env a mono hd (k "x") (by decide) (by decide) _ ox z iso loss]
+    apply congrArg Except.ok; ring
+  · rw [fragMass tR tA env a mono hd (k "z") (by decide) (by decide) _ oz z iso loss]
+    apply congrArg Except.ok; ring
+
+/-- **each internal ion `fb` = `by` + off(f) + off(b)** with off(a) = −CO, off(b) = 0, off(c) = +NH3,
+off(x) = +CO − H2, off(y) = 0, off(z) = −NH3 (`seriesOffset`), for all nine internal series -/
+theorem internal_offsets (env : Env) (a : Annotation) (mono : Bool) (hd : fragDomain env a mono)
+    (f b : Key) (hf : f ∈ [k "a", k "b", k "c"]) (hb : b ∈ [k "x", k "y", k "z"]) (z iso : Int) (loss : Rat) :
+    ∃ mby, mass env a (ionQuery (k "by") z mono iso loss) = .ok mby ∧
+      mass env a (ionQuery (f * 256 + b) z mono iso loss)
+        = .ok (mby + (seriesOffset lib mono f).getD 0 + (seriesOffset lib mono b).getD 0) := by
+  have hby := offset_internal mono (k "b") (k "y") (by decide) (by decide)
+  have hfb := offset_internal mono f b hf hb
+  have hne : f * 256 + b ≠ ionP ∧ f * 256 + b ≠ ionN := by
+    simp only [List.mem_cons, List.mem_nil_iff, or_false] at hf hb
+    rcases hf with rfl | rfl | rfl <;> rcases hb with rfl | rfl | rfl <;> decide
+  refine ⟨_, fragMass tR tA env a mono hd (k "by") (by decide) (by decide) _ hby z iso loss, ?_⟩
+  rw [fragMass tR tA env a mono hd (f * 256 + b) hne.1 hne.2 _ hfb z iso loss]
+  apply congrArg Except.ok
+  have h0 : (seriesOffset lib mono (k "b")).getD 0 = 0 := rfl
+  have h1 : (seriesOffset lib mono (k "y")).getD 0 = 0 := rfl
+  rw [h0, h1]; ring
+
+/-- **immonium = residue − CO + h⁺** (singly charged, unmodified residue) -/
+theorem immonium_mass (env : Env) (c : Char) (f : Comp) (mono : Bool) (hc : lookup c.toNat residueFormula = some f) :
+    mass env { seq := [c] } (ionQuery (k "i") 1 mono 0 0)
+      = .ok (lib.compMass mono f - lib.compMass mono fCO + lib.hplus mono) := by
+  obtain ⟨_, _, _, _, _, _, oi⟩ := offsets mono
+  have hd : fragDomain env { seq := [c] } mono := by
+    refine ⟨rfl, rfl, ?_⟩
+    unfold inDomain
+    simp [hc, placedMods, neutralOffset]
+    rfl
+  rw [fragMass tR tA env _ mono hd (k "i") (by decide) (by decide) _ oi 1 0 0]
+  apply congrArg Except.ok
+  unfold ionBase residueSum staticValue modsValue placedMods
+  simp [hc, sumR]
+  ring
+
+/-- **higher charge states add one proton each** (`PROTON_MASS`), for every ion type (precursor included) and every
+charge, also negative -/
+theorem charge_step (env : Env) (a : Annotation) (t : Key) (mono : Bool) (hl : a.isotope = none) (had : a.adducts = none)
+    (hdom : inDomain env a t mono none = true) (z iso : Int) (loss : Rat) :
+    ∃ m, mass env a (ionQuery t z mono iso loss) = .ok m ∧
+      mass env a (ionQuery t (z + 1) mono iso loss) = .ok (m + Gen.protonMass) := by
+  refine ⟨_, mass_eq_spec_of_tables tR tA env a (ionQuery t z mono iso loss) rfl hl rfl had hdom, ?_⟩
+  rw [mass_eq_spec_of_tables tR tA env a (ionQuery t (z + 1) mono iso loss) rfl hl rfl had hdom]
+  apply congrArg Except.ok
+  show specMassT lib env a t (z + 1) mono iso loss none = specMassT lib env a t z mono iso loss none + Gen.protonMass
+  unfold specMassT Spec.chargeTerm
+  have hp : lib.proton = Gen.protonMass := rfl
+  split_ifs <;> push_cast <;> rw [hp] <;> ring
 
 end Pept.C05
